@@ -14,8 +14,8 @@ MANIFEST = dict(
          'float; (default_bounds_agree) compile-time and runtime width tables, both extracted by the translator, coincide; '
          '(checkDefault_no_crash, example_check_no_crash) since the frontend repairs the compile-time checks of a default and of '
          'an example end in acceptance or in a spec error for every type, literal and example value, '
-         '(default_refused_composite, default_union_literal_refused) a default on a List / Map / struct field and a literal on a '
-         'union field being spec errors; '
+         '(default_refused_composite, default_union_literal_refused, default_type_shape) a default on a List / Map / struct field, '
+         'on an alias of Void or of a nullable type, and a literal on a union field being spec errors; '
          '(example_roundtrip_partial, example_roundtrip_wire_partial, example_union_roundtrip_partial) the document computed for a '
          'reference-free example over scalar members decodes strictly (json_compat_obj_decode) and json_compat_obj_encode gives its '
          'members back; (example_union_null_struct_roundtrip) a union example `t = null` for a member of nullable struct type is '
@@ -39,7 +39,10 @@ MANIFEST = dict(
          'declared caller permission. An example whose text is a non-canonical spelling of its value (`true` for a number, an '
          'integer that is not a float, "2020-1-5" for %Y-%m-%d, base64 with stray bits) IS judged: the statement says "encodes '
          'back to the same document". corpus/C10/*.json (one minimal spec per listed finding plus the inputs the frontend '
-         'repairs made legal) is evaluated with the direct oracle before the random part of every run.',
+         'repairs made legal) is evaluated with the direct oracle before the random part of every run. What the grids take for '
+         'granted of the compiler (the fixed prelude compiles, every grid type is / is not a legal struct field type, the seed '
+         'specs build) is itself compared (suites decl.ircheck.grid_prelude / grid_types / flat_base / seed_specs): a tree whose '
+         'compiler refuses it shows as a disagreement, not as an infrastructure failure.',
     technique='Lean 4 proof + translator-extracted tables + differential correspondence + direct oracle on generated classes',
     design='5 C10')
 
